@@ -354,6 +354,7 @@ func checkC14(c *Ctx) {
 	c.c14Routes()
 	c.c14RouteEffects()
 	c.c14ErrPropagate(units)
+	c.c14ClientErrors()
 	// the handlers and what they run synchronously, also through a function value (a handler
 	// may be a thin wrapper around an action function: mailboxActionV1(f).handle); code that only
 	// runs on other goroutines (the WebSocket writers) is not on the HTTP response path
@@ -1804,4 +1805,107 @@ func (c *Ctx) handlerRuns(h *ssa.Function) []*ssa.Function {
 	walk(h, nil, 0)
 	sortFuncs(out)
 	return out
+}
+
+// c14ClientErrors: the Go client reports what the server answered. In pkg/rest/client every
+// error the code tests is handed back on its failure branch, and every function that receives an
+// HTTP response looks at its status: on the edge where the status is not 200 no return reports
+// success. A client method that returns nil for a 404 or a 500 tells its caller that a message
+// was marked, deleted or purged when it was not.
+func (c *Ctx) c14ClientErrors() {
+	r, p := c.R, c.P
+	rule := "C14/CLIENT/errors"
+	r.Rule(rule, "in pkg/rest/client every tested error is reported on its failure branch, and every function that holds an *http.Response compares its StatusCode with 200 and reports an error on the other edge")
+	fns := pkgFuncs(p, "pkg/rest/client")
+	n := c.storeErrorsPropagate(rule, fns, "the client reports success although the request failed")
+	r.Floor(rule, "tested errors in the REST client", n, 3)
+	// status discipline
+	isStatus := func(v ssa.Value) bool {
+		f := eng.LoadedField(eng.StripConv(v))
+		return f != nil && f.Name() == "StatusCode" && f.Pkg() != nil && f.Pkg().Path() == "net/http"
+	}
+	nResp := 0
+	for _, fn := range fns {
+		fn := fn
+		// does fn obtain a response?
+		var got ssa.Instruction
+		eng.EachInstr(fn, func(in ssa.Instruction) {
+			call, ok := in.(*ssa.Call)
+			if !ok || got != nil {
+				return
+			}
+			res := call.Call.Signature().Results()
+			for i := 0; i < res.Len(); i++ {
+				if pt, ok := res.At(i).Type().(*types.Pointer); ok {
+					if nm, ok := pt.Elem().(*types.Named); ok && nm.Obj().Name() == "Response" && nm.Obj().Pkg() != nil && nm.Obj().Pkg().Path() == "net/http" {
+						got = in
+					}
+				}
+			}
+		})
+		if got == nil {
+			continue
+		}
+		// a function that hands the response on to its caller leaves the status to the caller
+		returnsResp := false
+		rs := fn.Signature.Results()
+		for i := 0; i < rs.Len(); i++ {
+			if pt, ok := rs.At(i).Type().(*types.Pointer); ok {
+				if nm, ok := pt.Elem().(*types.Named); ok && nm.Obj().Name() == "Response" {
+					returnsResp = true
+				}
+			}
+		}
+		if returnsResp {
+			continue
+		}
+		nResp++
+		cons := "status@" + shortFn(fn)
+		var badEdges []*ssa.BasicBlock
+		tested := false
+		for _, b := range fn.Blocks {
+			for k := 0; k < len(b.Succs) && len(b.Succs) == 2; k++ {
+				rel, ok := eng.EdgeRel(b, k)
+				if !ok || !isStatus(rel.X) {
+					continue
+				}
+				kv, isC := eng.ConstInt(rel.Y)
+				if !isC || kv != 200 {
+					continue
+				}
+				tested = true
+				if rel.Op == token.NEQ {
+					badEdges = append(badEdges, b.Succs[k])
+				}
+			}
+		}
+		if !tested {
+			r.Bad(rule, cons, p.InstrPos(got), "%s receives an HTTP response and never compares its status with 200: a 404 or a 500 is reported to the caller as success", shortFn(fn))
+			continue
+		}
+		succ := func(in ssa.Instruction) bool {
+			ret, ok := in.(*ssa.Return)
+			if !ok || eng.IsRecoverBlock(ret.Block()) {
+				return false
+			}
+			res := eng.ReturnResults(ret)
+			if len(res) == 0 {
+				return true
+			}
+			e := res[len(res)-1]
+			return !(definitelyNonNilErr(e) || eng.KnownNonNil(e, ret.Block()))
+		}
+		var bad ssa.Instruction
+		for _, st := range badEdges {
+			if x := (&eng.Search{Target: succ}).FromBlockStart(st); x != nil {
+				bad = x
+			}
+		}
+		if bad != nil {
+			r.Bad(rule, cons, p.InstrPos(bad), "%s can report success at %s although the response status is not 200", shortFn(fn), p.InstrPos(bad))
+		} else {
+			r.Ok(rule, cons, p.InstrPos(got), "a status other than 200 is reported as an error")
+		}
+	}
+	r.Floor(rule, "client functions that receive a response", nResp, 2)
 }
